@@ -168,3 +168,11 @@ pub mod memo {
         t
     }
 }
+
+/// `<Pubkey as Display>::fmt` replacement (base-58 rendering of a *symbolic* key never terminates in CBMC; it is reached
+/// through `Error::with_account_name(*owner)` in anchor's `CheckOwner::check_owner`, i.e. every `InterfaceAccount`).
+/// Messages are never observed. Use as
+/// `#[kani::stub(<anchor_lang::prelude::Pubkey as core::fmt::Display>::fmt, stub_pubkey_display)]`.
+pub fn stub_pubkey_display(_k: &anchor_lang::prelude::Pubkey, _f: &mut core::fmt::Formatter<'_>) -> core::fmt::Result {
+    Ok(())
+}
